@@ -221,6 +221,10 @@ func (c *Ctx) fnOpt(key string) *ssa.Function {
 		if nt := namedOf(g.Params[0].Type()); nt != nil && nt.Obj().Name() == typ {
 			return g
 		}
+		// a method that did not use its receiver, turned into a function
+		if !g.Object().Exported() {
+			return g
+		}
 		return nil
 	}
 	var found *ssa.Function
